@@ -86,8 +86,13 @@ Definition caps_okb (Q : queues) : bool :=
                 | None => false
                 end) (qcap s)) Q.
 
+(* a terminating queue (other than root) has no children *)
+Definition term_okb (Q : queues) : bool :=
+  map_allb (fun n s => bool_decide (n = root) || negb (qterm s) ||
+                       forallb (fun ms => negb (bool_decide (qparent (snd ms) = Some n))) (map_to_list Q)) Q.
+
 Definition tree_okb (c : cfg) (Q : queues) : bool :=
-  shape_okb c Q && per_okb Q && sums_okb Q && caps_okb Q.
+  shape_okb c Q && per_okb Q && sums_okb Q && caps_okb Q && term_okb Q.
 
 (* an admitted DELETE: not root/default, the queue exists, has no children and
    (flag on) no allocated pods *)
@@ -131,11 +136,11 @@ Definition law_gated (gate : bool) (chk : queues -> bool) (grd : queues -> req -
 Definition no_guard (_ : queues) (_ : req) : bool := true.
 Definition depth_okb (c : cfg) : bool := 1 <=? max_depth c.
 
-Definition law_shape c Q0 := law_gated (depth_okb c && shape_okb c Q0) (shape_okb c) no_guard Q0.
+Definition law_shape c Q0 := law_gated (depth_okb c && shape_okb c Q0 && term_okb Q0) (shape_okb c) no_guard Q0.
 Definition law_per (c : cfg) Q0 := law_gated (per_okb Q0) per_okb no_guard Q0.
 Definition law_sums c Q0 :=
-  law_gated (depth_okb c && shape_okb c Q0 && per_okb Q0 && sums_okb Q0) sums_okb no_guard Q0.
-Definition law_caps c Q0 := law_gated (depth_okb c && shape_okb c Q0 && caps_okb Q0) caps_okb no_guard Q0.
+  law_gated (depth_okb c && shape_okb c Q0 && term_okb Q0 && per_okb Q0 && sums_okb Q0) sums_okb no_guard Q0.
+Definition law_caps c Q0 := law_gated (depth_okb c && shape_okb c Q0 && term_okb Q0 && caps_okb Q0) caps_okb no_guard Q0.
 Definition law_delete c Q0 := law_gated true (fun _ => true) (delete_guardb c) Q0.
 Definition law_gate c Q0 (rs : list req) (vs : list Z) : bool := depth_okb c && tree_okb c Q0.
 
